@@ -71,7 +71,7 @@ func runC10(c c10Case, rng *rand.Rand, r *rep.Report) (key, msg string, stats ma
 			so.SetMaxHttpBufferSize(c.Limit)
 			so.SetPingInterval(20 * time.Second)
 			w := rig.NewWorld(rig.Options{Server: so})
-			defer w.Shutdown()
+			defer w.Finish()
 			canary, err := w.Connect(rig.ClientCfg{Rev: 4, Transport: "websocket"})
 			if err != nil {
 				key, msg = "c10-handshake-failed", err.Error()
